@@ -1,6 +1,7 @@
 SPECIFICATION Spec
 CONSTANTS
   MaxWeight = 1
+  StoreAt = "post"
   Variant = "fixed"
 CONSTRAINT Export
 INVARIANT RefClosed
